@@ -45,6 +45,51 @@ def cmdC10 (j : Json) : R Json := do
                        ("stdy", putFB (Stats.std1 ys))]
   pure (obj (base ++ extra))
 
-def statsCmds : List (String × (Json → R Json)) := [("c10", cmdC10)]
+/-- `c10pair`: two repeated measurements `a` (xs, es) and `b` (ys, fs), selector steps on either
+    (`["a", sel]` / `["b", sel]`), a correlation factor (inferred = clipped normalised sample
+    covariance, or an explicit number) that is in force from state `rho_from` on; after every step the
+    pairs in use and the downstream formulas of all shapes -/
+def cmdC10Pair (j : Json) : R Json := do
+  let xs ← getFBList (← field j "xs")
+  let ys ← getFBList (← field j "ys")
+  let es := (← optFBList j "es").getD (xs.map fun _ => FB.exact 0.0)
+  let fs := (← optFBList j "fs").getD (ys.map fun _ => FB.exact 0.0)
+  let stepsJ ← getArr (fieldD j "steps" (Json.arr #[]))
+  let steps ← stepsJ.toList.mapM fun st => do
+    let a ← getArr st
+    let who ← getStr a[0]!
+    let nm ← getStr a[1]!
+    match Stats.Sel.ofName? nm with
+    | some x => pure (who == "a", x)
+    | none => throw s!"unknown selector {nm}"
+  let k1 := FB.exact (← getF (fieldD j "k1" (putF 1.0)))
+  let k2 := FB.exact (← getF (fieldD j "k2" (putF 1.0)))
+  let c := FB.exact (← getF (fieldD j "c" (putF 0.0)))
+  let rhoMode ← getStr (fieldD j "rho_mode" (Json.str "none"))
+  let rhoFrom ← (fieldD j "rho_from" (0 : Nat)).getNat?
+  let one : FB := FB.exact 1.0
+  let rho : FB ← match rhoMode with
+    | "inferred" => pure (Stats.clip (Stats.corr xs ys) (Num.neg one) one)
+    | "explicit" => do pure (FB.exact (← getF (← field j "rho")))
+    | _ => pure (FB.exact 0.0)
+  let a0 := Stats.Rep.init xs es
+  let b0 := Stats.Rep.init ys fs
+  let states := (steps.foldl (fun (acc : List (Stats.Rep FB × Stats.Rep FB) × (Stats.Rep FB × Stats.Rep FB)) st =>
+      let (a, b) := acc.2
+      let nxt := if st.1 then (Stats.Rep.step a st.2, b) else (a, Stats.Rep.step b st.2)
+      (acc.1 ++ [nxt], nxt)) ([(a0, b0)], (a0, b0))).1
+  let outStates := states.map fun (a, b) =>
+    Json.arr #[putFB a.value, putFB a.error, putFB b.value, putFB b.error]
+  let idx := List.range states.length
+  let down := (states.zip idx).map fun ((a, b), i) =>
+    let r := if i < rhoFrom then FB.exact 0.0 else rho
+    obj (Stats.Shape2.all.map fun sh =>
+      let d := Stats.downstream2 sh k1 k2 c a.value a.error b.value b.error r
+      (sh.name, Json.arr #[putFB d.1, putFB d.2]))
+  pure (obj [("states", Json.arr outStates.toArray), ("down", Json.arr down.toArray),
+    ("rho", putFB rho), ("stdx", putFB (Stats.std1 xs)), ("stdy", putFB (Stats.std1 ys)),
+    ("hasz_a", Json.bool (Stats.hasZero es)), ("hasz_b", Json.bool (Stats.hasZero fs))])
+
+def statsCmds : List (String × (Json → R Json)) := [("c10", cmdC10), ("c10pair", cmdC10Pair)]
 
 end QExPy.Drv
